@@ -55,9 +55,7 @@ def rnd_row(rng, types, kinds, nullable=True):
                 vals.append(Val("s", rng.choice([b"it's", b"\x01\xff", b"x" * 200] if k != "b" else [b"it's", b"\x01\xff"])))
         else:
             v = rnd_val(rng, t, small=False)
-            if k == "b" and t == "s" and len(v.v) > 20:
-                v = Val("s", v.v[:20])       # B-tree keys: strings up to 24 bytes (C18 btree_pad_roundtrip)
-            vals.append(v)
+            vals.append(for_index(v, t, k))   # B-tree keys: strings up to 24 bytes, integers below 2147418112 (F-BTREE-STOPPER)
     return vals
 
 
@@ -239,6 +237,8 @@ def run(res, replay=None):
     res.extra["range_compare_cases"] = len(rc_cases)
     # (b) the listed known findings are replayed
     known_probes(res)
+    import btreeprobe
+    res.oracle_failures.extend(btreeprobe.probe(res, sql=True))
     ntab = 60 if res.tier == "quick" else 600
     for i in range(ntab):
         for d, w in one_table(rng, res.tier, res, i):
